@@ -152,7 +152,7 @@ var opNames = []string{"Set", "SetNx", "SetX", "Remove", "Get", "GetNode", "Len"
 
 func gen(r *sim.Rng, tier string) *sim.Case {
 	c := &sim.Case{Params: map[string]int{}}
-	kind := r.N(10)
+	kind := r.N(11)
 	c.Params["kind"] = kind
 	if r.Pct(20) {
 		c.Params["twin"] = 1 // a second list of the same type is used alternately
@@ -764,6 +764,15 @@ func exec(c *sim.Case, out *sim.WorkerOut) (*sim.Violation, bool) {
 			}
 			return 0
 		}, func(i int) int { return i }, func(k int) int { return k }, func(i int) int { return i }), out, dg)
+	case 10:
+		// pointer keys with a comparator that dereferences: the zero value of the key type (nil)
+		// is not a key and must never reach the comparator (the list's own head node holds one)
+		v, nt = execTyped(c, withCmp(start, func(a, b *int) int { return *a - *b }, func(i int) *int { return &i }, func(k *int) int {
+			if k == nil {
+				return -1 << 30
+			}
+			return *k
+		}, func(i int) int { return i }), out, dg)
 	case 3:
 		v, nt = execTyped(c, withCmp(start, func(a, b int) int { return a - b }, func(i int) int { return i }, func(k int) int { return k }, func(i int) int { return i }), out, dg)
 	case 4:
